@@ -1206,6 +1206,9 @@ class PE:
         d = self.lam_depth
         try:
             env2 = dict(env)
+            for v_ in list(env2):
+                if is_alloc(env2[v_]):
+                    env2[v_] = ('hoist', env2[v_])      # created before the comprehension, shared by all its iterations
             gl = []
             for gi, g in enumerate(gens):
                 it = it0 if gi == 0 else self.ev(g.iter, env2)
@@ -1994,58 +1997,77 @@ class PE:
                 for v in ivs:
                     env[v] = iv_after[v]
         # ---- accumulators of a pure loop are comprehensions:  l=[]; for x in S: l.append(e)  ==  [e for x in S]
-        if kind == 'for' and it[0] == 'range' and it[1] == C(0) and it[3] == C(1) and not body_eff and not s.orelse \
-                and not self.has_flow_escape(s.body) and carried:
-            its = itsym()
+        pending_folded = {}
+
+        def loopsym(x):
+            return x[0] in ('phi', 'after', 'afterlocal', 'afterit') and len(x) > 1 and x[1] == L
+
+        def rerank(keep):
+            ren = {}
+            for newrank, v in enumerate(keep):
+                old = carried.index(v)
+                for tg in ('phi', 'after'):
+                    ren[(tg, L, old) + ksuf(inits[old])] = (tg, L, newrank) + ksuf(inits[old])
+            ident = all(k == v_ for k, v_ in ren.items())
+            nn = tuple((nexts[carried.index(v)] if ident else substitute(nexts[carried.index(v)], ren, self.opts)) for v in keep)
+            ni = tuple(inits[carried.index(v)] for v in keep)
+            return ren, ident, ni, nn
+
+        if kind == 'for' and not body_eff and not s.orelse and not self.has_flow_escape(s.body) and carried:
             d = self.lam_depth + 1
-            bv = ('bv', d, 0, 'num')
-            folds = {}
-
-            def loopsym(x):
-                return x[0] in ('phi', 'after', 'afterlocal', 'afterit') and len(x) > 1 and x[1] == L
-
-            for rank, v in enumerate(carried):
-                phi = ('phi', L, rank) + ksuf(inits[rank])
-                nx = nexts[rank]
-                cond = None
-                if nx[0] == 'ite' and (nx[3] == phi or nx[2] == phi):
-                    cond = nx[1] if nx[3] == phi else mk_not(nx[1])
-                    nx = nx[2] if nx[3] == phi else nx[3]
-                    if mentions(cond, loopsym):
+            isrange = it[0] == 'range' and it[1] == C(0) and it[3] == C(1)
+            if isrange or it[0] != 'range':
+                folds = {}
+                for rank, v in enumerate(carried):
+                    phi = ('phi', L, rank) + ksuf(inits[rank])
+                    nx = nexts[rank]
+                    cond = None
+                    if nx[0] == 'ite' and (nx[3] == phi or nx[2] == phi):
+                        cond = nx[1] if nx[3] == phi else mk_not(nx[1])
+                        nx = nx[2] if nx[3] == phi else nx[3]
+                        if mentions(cond, loopsym):
+                            continue
+                    e, how = None, None
+                    if nx[0] == 'mut' and nx[1] == 'append' and nx[2] == phi and len(nx[3]) == 1:
+                        e, how = nx[3][0], 'elem'
+                    elif nx[0] == 'mut' and nx[1] == 'extend' and nx[2] == phi and len(nx[3]) == 1:
+                        e, how = nx[3][0], 'chain'
+                    elif nx[0] == '+' and len(nx[1]) == 2 and nx[1][0] == phi and kind_of(inits[rank]) == 'seq':
+                        x = nx[1][1]
+                        if inits[rank][0] == 'list':
+                            if x[0] == 'list' and len(x[1]) == 1:
+                                e, how = x[1][0], 'elem'
+                            else:
+                                e, how = x, 'chain'
+                        elif inits[rank][0] == 'c' and isinstance(inits[rank][1], (bytes, str)):
+                            e, how = x, 'join'
+                    if e is None or mentions(e, loopsym):
                         continue
-                e, how = None, None
-                if nx[0] == 'mut' and nx[1] == 'append' and nx[2] == phi and len(nx[3]) == 1:
-                    e, how = nx[3][0], 'elem'
-                elif nx[0] == 'mut' and nx[1] == 'extend' and nx[2] == phi and len(nx[3]) == 1:
-                    e, how = nx[3][0], 'chain'
-                elif nx[0] == '+' and len(nx[1]) == 2 and nx[1][0] == phi and kind_of(inits[rank]) == 'seq':
-                    x = nx[1][1]
-                    if inits[rank][0] in ('list',) or (inits[rank][0] == 'c' and False):
-                        if x[0] == 'list' and len(x[1]) == 1:
-                            e, how = x[1][0], 'elem'
-                        elif kind_of(x) == 'seq' or x[0] in ('call', 'idx', 'attr'):
-                            e, how = x, 'chain'
-                    elif inits[rank][0] == 'c' and isinstance(inits[rank][1], (bytes, str)):
-                        e, how = x, 'join'
-                if e is None or mentions(e, loopsym):
-                    continue
-                folds[v] = (rank, e, how, cond)
-            if folds:
+                    folds[v] = (rank, e, how, cond)
                 keep = [v for v in carried if v not in folds]
-                # the other carried variables must not look at an accumulator
                 facc = {('phi', L, folds[v][0]) + ksuf(inits[folds[v][0]]) for v in folds}
-                if not any(mentions(nexts[carried.index(v)], lambda x: x in facc) for v in keep):
+                if folds and not any(mentions(nexts[carried.index(v)], lambda x: x in facc) for v in keep):
+                    def to_bv(t):
+                        t = shift_binders(t, d, 1)
+                        if isrange:
+                            return substitute(t, {itsym(): ('bv', d, 0, 'num')}, self.opts)
+
+                        def rec(x):
+                            if type(x) is not tuple or not x:
+                                return x
+                            if x[0] == 'it' and len(x) > 1 and x[1] == L:
+                                return ('bv', d, 0) + tuple(x[2:])
+                            return tuple(rec(y) if type(y) is tuple else y for y in x)
+                        return substitute(rec(t), {}, self.opts)
                     for v, (rank, e, how, cond) in folds.items():
-                        sub = {its: bv}
-                        e2 = substitute(shift_binders(e, d, 1), sub, self.opts)
-                        conds = () if cond is None else (substitute(shift_binders(cond, d, 1), sub, self.opts),)
+                        e2 = to_bv(e)
+                        conds = () if cond is None else (to_bv(cond),)
                         gens = [(it, conds)]
                         if how == 'chain':
                             ci = canon_iter(e2, self.opts)
-                            bv1 = ('bv', d, 1, 'num')
                             if ci is not None:
                                 gens.append((('range', C(0), ci[0], C(1)), ()))
-                                elt = ci[1](bv1)
+                                elt = ci[1](('bv', d, 1, 'num'))
                             else:
                                 gens.append((e2, ()))
                                 elt = ('bv', d, 1)
@@ -2056,35 +2078,40 @@ class PE:
                         if how == 'join':
                             empty = C(b'') if isinstance(init[1], bytes) else C('')
                             joined = ('call', ('attr', empty, 'join'), (comp,), ())
-                            env[v] = joined if init == empty else mk_bin('+', init, joined, self.opts)
+                            pending_folded[v] = joined if init == empty else mk_bin('+', init, joined, self.opts)
                         else:
-                            env[v] = comp if init == ('list', ()) else mk_bin('+', init, comp, self.opts)
-                    folded_after = {v: env[v] for v in folds}
-                    # re-rank the remaining carried variables
-                    ren = {}
-                    for newrank, v in enumerate(keep):
-                        old = carried.index(v)
-                        for tg in ('phi', 'after'):
-                            ren[(tg, L, old) + ksuf(inits[old])] = (tg, L, newrank) + ksuf(inits[old])
-                    new_nexts = tuple(substitute(nexts[carried.index(v)], ren, self.opts) for v in keep)
-                    new_inits = tuple(inits[carried.index(v)] for v in keep)
-                    carried, inits, nexts = keep, new_inits, new_nexts
-                    if not carried:
-                        # nothing is left of the loop: no effect is emitted; locals assigned in the body keep their afterlocal form
-                        for v in assigned:
-                            if v not in folded_after and v in env2 and v not in tn and v in env:
-                                env[v] = ('afterlocal', L, env2[v])
-                        for v, t_ in folded_after.items():
-                            env[v] = t_
-                        self.nloops -= 1 if self.nloops == L else 0
-                        return
-                    pending_folded = folded_after
-                else:
-                    pending_folded = {}
-            else:
-                pending_folded = {}
-        else:
-            pending_folded = {}
+                            pending_folded[v] = comp if init == ('list', ()) else mk_bin('+', init, comp, self.opts)
+                    ren, ident, inits2, nexts2 = rerank(keep)
+                    carried, inits, nexts = keep, inits2, nexts2
+        # ---- carried variables that the loop never reads are locals of the body (their value before the loop is dead)
+        if carried:
+            dead = []
+            for rank, v in enumerate(carried):
+                phi = ('phi', L, rank) + ksuf(inits[rank])
+                used = any(mentions(x, lambda y: y == phi) for x in nexts) or mentions(tuple(body_eff), lambda y: y == phi) \
+                    or (cond is not None and mentions(cond, lambda y: y == phi))
+                if not used and not mutates(nexts[rank], inits[rank]) and v not in self.roots:
+                    dead.append(v)
+            if dead:
+                keep = [v for v in carried if v not in dead]
+                for v in dead:
+                    pending_folded.setdefault(v, ('afterlocal', L, nexts[carried.index(v)]))
+                ren, ident, inits2, nexts2 = rerank(keep)
+                if not ident:
+                    body_eff = list(substitute(tuple(body_eff), ren, self.opts))
+                    if cond is not None:
+                        cond = substitute(cond, ren, self.opts)
+                carried, inits, nexts = keep, inits2, nexts2
+        if kind == 'for' and not carried and not body_eff and not s.orelse and pending_folded and not self.has_flow_escape(s.body):
+            # nothing is left of the loop: no effect is emitted
+            for v in assigned:
+                if v not in pending_folded and v in env2 and v not in tn:
+                    env[v] = ('afterlocal', L, env2[v])
+            for v, t_ in pending_folded.items():
+                env[v] = t_
+            if self.nloops == L:
+                self.nloops -= 1
+            return
         else_eff = []
         # after the loop
         for rank, v in enumerate(carried):
